@@ -122,6 +122,7 @@ class Check:
         self.inconclusive = 0
         self.skipped = 0
         self.stats = {}
+        self.monitors = {}        # pmap label -> {cases, inconclusive_cases, cases_without_any_run}
         self.samples = []
         self.sample_cap = 5
         self.extra = {}
@@ -159,10 +160,20 @@ class Check:
             it = (_worker((func, c)) for c in cases)
         else:
             it = self.pool().imap_unordered(_worker, [(func, c) for c in cases], chunksize)
+        n_inconc = n_dead = 0
         for r in it:
             self.absorb(r)
             results.append(r)
             n += 1
+            if r.get("inconc", 0) > 0:
+                n_inconc += 1
+            if r.get("evals", 1) == 0 and not r.get("skipped", 0):
+                n_dead += 1
+        # a monitor most of whose cases are inconclusive (or ran nothing) has decided nothing: that is never "held"
+        mon = self.monitors.setdefault(label or getattr(func, "__name__", "?"), {"cases": 0, "inconclusive_cases": 0, "cases_without_any_run": 0})
+        mon["cases"] += n
+        mon["inconclusive_cases"] += n_inconc
+        mon["cases_without_any_run"] += n_dead
         if label:
             print(f"[{self.prop}] {label}: {n} cases, {time.time()-self.t0:.0f}s elapsed, "
                   f"{len(self.violations)} unlisted violations, {sum(c for _, c, _ in self.known_hits.values())} known hits",
@@ -251,6 +262,7 @@ class Check:
             "known_findings_hit": {fid: c for fid, (f, c, ex) in self.known_hits.items()},
             "unlisted_violation_signatures": len(bysig),
             "observed": _jsonable(stats),
+            "monitors": _jsonable(self.monitors),
         }
         if self.exhaustive is not None:
             cov["exhaustive"] = bool(self.exhaustive)
@@ -283,6 +295,11 @@ class Check:
         if self.exceptions:
             print(f"[{self.prop}] BROKEN: {len(self.exceptions)} harness exceptions", file=sys.stderr)
             return 2
+        for name, mon in self.monitors.items():
+            if mon["cases"] >= 10 and mon["inconclusive_cases"] * 2 > mon["cases"]:
+                print(f"[{self.prop}] BROKEN: monitor '{name}' was inconclusive in {mon['inconclusive_cases']} of {mon['cases']} cases "
+                      f"(no verdict; re-run on a quieter machine)", file=sys.stderr)
+                return 2
         if self.evaluations == 0 or len(self.keys_nontrivial) < 2:
             print(f"[{self.prop}] BROKEN: the run observed nothing non-trivial", file=sys.stderr)
             return 2
